@@ -449,6 +449,16 @@ static void ProcessFile(char const* FileName, LongWord Offset) {
                     if ((ActFormat == eHexFormatMotoS) && (TransLen > 250)) {
                         TransLen = 250;
                     }
+
+                    /* only whole address units on a line: the next line's address
+                       is computed in address units */
+
+                    if ((Gran > 1) && (TransLen % Gran)) {
+                        TransLen -= TransLen % Gran;
+                        if (!TransLen) {
+                            TransLen = min((LongWord)Gran, ErgLen);
+                        }
+                    }
                     if ((ActFormat == eHexFormatIntel32)
                         && ((ErgStart & 0xffff) + (TransLen / Gran) >= 0x10000)) {
                         TransLen  = Gran * (0x10000 - (ErgStart & 0xffff));
